@@ -3,6 +3,7 @@ package checks
 import (
 	"bytes"
 	"fmt"
+	"unsafe"
 
 	"github.com/pion/rtp"
 
@@ -21,7 +22,7 @@ func init() {
 	register(&Check{
 		ID: "C20", Level: "exploration", Configs: []string{"clean"},
 		Run:         runC20,
-		QuickRuns:   400_000,
+		QuickRuns:   300_000,
 		ThoroughSec: 480,
 		Rule: "one run = a stream of 2-16 generated well-formed packets delivered into ONE recycled receive buffer; each decoded packet is cloned (Packet.Clone, Header.Clone), the clone is retained " +
 			"for 1-5 later deliveries (which overwrite the buffer the original aliases); the sender likewise clones packets it built in memory (nil payloads, padding-only packets) into a retransmission buffer; one drawn mutation is applied to the original or to the clone (payload byte, CSRC entry, extension " +
@@ -51,6 +52,7 @@ func runC20(c *core.Ctx) {
 	loop := core.NewLoop(c, 600)
 	pool := newRxPool(c, 1)
 	var jb []*retained
+	rxPkt := &rtp.Packet{}
 	npk := 2 + t.Intn(15)
 	delivered := 0
 	var fp []uint64
@@ -100,7 +102,10 @@ func runC20(c *core.Ctx) {
 			}
 		}
 		jb = keep
-		orig := &rtp.Packet{}
+		orig := rxPkt // ONE long-lived Packet decodes every datagram, as a read loop does: its CSRC/Extensions arrays are reused
+		if t.Chance(1, 4) {
+			orig = &rtp.Packet{}
+		}
 		var err error
 		if c.Guard("rtp.Packet.Unmarshal", func() { err = orig.Unmarshal(buf) }) {
 			return
@@ -130,6 +135,14 @@ func runC20(c *core.Ctx) {
 		}
 		if (e1 == nil) != (e2 == nil) || !bytes.Equal(ob, cb) {
 			c.Violate("equal", "C20/clone-differs-at-clone-time/marshal-bytes", "original marshals to %d bytes (err %v), its clone to %d bytes (err %v)", len(ob), e1, len(cb), e2)
+			return
+		}
+		if what := c20overlap(c, orig, cl, pool.bufs[0]); what != "" {
+			c.Violate("independence", "C20/shared-memory/capacity-overlap/"+what, "right after Clone(), the clone's %s can reach memory of the original (overlapping capacity ranges): an append or write through it lands in the other packet (%s)", what, spec)
+			return
+		}
+		if what := c20overlap(c, orig, &rtp.Packet{Header: hc}, pool.bufs[0]); what != "" {
+			c.Violate("independence", "C20/shared-memory/capacity-overlap/header-clone-"+what, "right after Header.Clone(), the clone's %s can reach memory of the original (%s)", what, spec)
 			return
 		}
 		if len(spec.csrc) > 0 && spec.profile != profNone && spec.padSize > 0 && len(spec.payload) > 0 {
@@ -183,7 +196,9 @@ func runC20(c *core.Ctx) {
 				var cl *rtp.Packet
 				var hc rtp.Header
 				if !c.Guard("rtp.Packet.Clone", func() { cl = pk.Clone(); hc = pk.Header.Clone() }) && cl != nil {
-					if k2, a, b := c20diff(c, cl, spec); k2 != "" {
+					if what := c20overlap(c, pk, cl, nil); what != "" {
+						c.Violate("independence", "C20/shared-memory/capacity-overlap/"+what, "right after Clone() of a packet built in memory, the clone's %s can reach memory of the original (%s)", what, spec)
+					} else if k2, a, b := c20diff(c, cl, spec); k2 != "" {
 						c.Violate("equal", "C20/clone-differs-at-clone-time/"+k2, "Clone() of a packet built in memory has %s=%s, the packet has %s (%s)", k2, a, b, spec)
 					} else {
 						var ob, cb []byte
@@ -302,7 +317,7 @@ func c20mutate(c *core.Ctx, t *core.Tape, mut int, onClone bool, orig *rtp.Packe
 		}
 	case 5: // SetExtension of a new id
 		kind = "set-new"
-		if m.profile == profOneByte || m.profile == profTwoByte {
+		if m.profile == profOneByte || m.profile == profTwoByte || m.profile == profNone {
 			id := uint8(1 + t.Intn(14))
 			dup := false
 			for _, e := range m.exts {
@@ -315,6 +330,9 @@ func c20mutate(c *core.Ctx, t *core.Tape, mut int, onClone bool, orig *rtp.Packe
 				var err error
 				c.Guard("rtp.Header.SetExtension", func() { err = target.SetExtension(id, nv) })
 				if err == nil && onClone {
+					if m.profile == profNone {
+						m.profile = profOneByte // the first element of 1-4 bytes with id 1-14 selects the one-byte form
+					}
 					m.exts = append(m.exts, extEl{id, append([]byte{}, nv...)})
 					c.Probe("mutate-clone-set-new-id")
 				}
@@ -384,4 +402,59 @@ func c20diff(c *core.Ctx, p *rtp.Packet, s *pktSpec) (string, string, string) {
 		return "Payload", fmt.Sprintf("%x", p.Payload), fmt.Sprintf("%x", s.payload)
 	}
 	return "", "", ""
+}
+
+type memRange struct {
+	lo, hi uintptr
+	what   string
+}
+
+func byteRange(b []byte, what string) memRange {
+	if cap(b) == 0 {
+		return memRange{}
+	}
+	p := uintptr(unsafe.Pointer(unsafe.SliceData(b)))
+	return memRange{p, p + uintptr(cap(b)), what}
+}
+
+// packetRanges lists the capacity ranges of every slice a packet can write through.
+func packetRanges(c *core.Ctx, p *rtp.Packet) []memRange {
+	var rs []memRange
+	rs = append(rs, byteRange(p.Payload, "Payload"))
+	if cap(p.CSRC) > 0 {
+		lo := uintptr(unsafe.Pointer(unsafe.SliceData(p.CSRC)))
+		rs = append(rs, memRange{lo, lo + 4*uintptr(cap(p.CSRC)), "CSRC"})
+	}
+	if cap(p.Extensions) > 0 {
+		lo := uintptr(unsafe.Pointer(unsafe.SliceData(p.Extensions)))
+		rs = append(rs, memRange{lo, lo + unsafe.Sizeof(p.Extensions[:1][0])*uintptr(cap(p.Extensions)), "Extensions-array"})
+	}
+	var ids []uint8
+	c.Guard("rtp.Header.GetExtensionIDs", func() { ids = p.GetExtensionIDs() })
+	for _, id := range ids {
+		var v []byte
+		c.Guard("rtp.Header.GetExtension", func() { v = p.GetExtension(id) })
+		rs = append(rs, byteRange(v, "extension-value"))
+	}
+	return rs
+}
+
+// c20overlap reports the first slice of the clone whose capacity range intersects memory the
+// original can write through (its own slices, or the receive buffer it aliases).
+func c20overlap(c *core.Ctx, orig, clone *rtp.Packet, rxbuf []byte) string {
+	or := packetRanges(c, orig)
+	if rxbuf != nil {
+		or = append(or, byteRange(rxbuf[:cap(rxbuf)], "receive-buffer"))
+	}
+	for _, a := range packetRanges(c, clone) {
+		if a.hi == 0 {
+			continue
+		}
+		for _, b := range or {
+			if b.hi != 0 && a.lo < b.hi && b.lo < a.hi {
+				return a.what
+			}
+		}
+	}
+	return ""
 }
